@@ -47,6 +47,8 @@ AeroRequests(pd) ==
     IN { [q |-> "kA", flow |-> flow, beta |-> R(5,2), gamma |-> IF pd.model = "cpanel" /\ flow = "x" THEN g ELSE RZero] @@ NoPlace
            : g \in {RZero, R(3,4)} }
        \cup { [q |-> "cA", aeromu |-> R(7,4)] @@ NoPlace }
+       \cup { [q |-> "kAmach", flow |-> flow, mach |-> mr[1], root |-> mr[2], rho |-> R(5,4), V |-> R(3,1), ainf |-> R(2,1)] @@ NoPlace
+               : mr \in { <<R(5,3), R(4,3)>>, <<R(13,5), R(12,5)>> } }
 
 (* field requests: a fixed rational state and points incl. corners, edges and interior *)
 StateVec(pd) == Fn([k \in 1..(Num(pd.model) * pd.m * pd.n) |-> R(((k * 7 + 3) % 11) - 5, 8)])
